@@ -2,3 +2,4 @@ pub mod cx;
 pub mod leafref;
 pub mod leafx;
 pub mod mcx;
+pub mod leafnative;
